@@ -21,8 +21,12 @@ EXTENDS Naturals, Sequences, TLC, Json
 
 CONSTANTS Emit
 
-Tags == {"", "public", "secret", "-", "inherit", "nm", "nm,public", "nm,secret"}
-TopKinds == {"leaf", "arr", "sli0", "sli2", "struct", "ptr", "emb"}
+\* "-,public" / "-,secret": only the exact tag "-" omits a field; a name "-" with options is an (invalid) name, the field
+\* keeps its Go name and the option applies (frontend/circuit.go documents `gnark:"-,public"`... as a valid minimal circuit)
+Tags == {"", "public", "secret", "-", "inherit", "nm", "nm,public", "nm,secret", "-,public", "-,secret"}
+\* "arr7": [7]Variable (together with other fields: more than 12 leaves); "tri": [3]Row, Row = struct{Cells []Variable},
+\* with 0, 2 and 1 cells: values of one struct type of which the first holds no leaf
+TopKinds == {"leaf", "arr", "sli0", "sli2", "struct", "ptr", "emb", "arr7", "tri"}
 SubKinds == {"leaf", "arr", "deep"}        \* "deep": a struct with a single leaf field tagged subtag2
 
 VARIABLES fields,     \* sequence of root fields [tag, kind, sub]; sub = sequence of [tag, kind, tag2]
@@ -32,7 +36,7 @@ vars == <<fields, phase, done>>
 Init == fields = <<>> /\ phase = "field" /\ done = FALSE
 
 IsStruct(k) == k \in {"struct", "ptr", "emb"}
-OptOf(tag) == IF tag \in {"public", "nm,public"} THEN "public" ELSE IF tag \in {"secret", "nm,secret"} THEN "secret" ELSE "unset"
+OptOf(tag) == IF tag \in {"public", "nm,public", "-,public"} THEN "public" ELSE IF tag \in {"secret", "nm,secret", "-,secret"} THEN "secret" ELSE "unset"
 
 AddField ==
   /\ phase = "field" /\ Len(fields) < 3
@@ -79,6 +83,8 @@ FieldLeaves(i, f) ==
   ELSE LET v == Vis("unset", f.tag) IN
        CASE f.kind = "leaf" -> <<[path |-> <<i>>, vis |-> Final(v)]>>
          [] f.kind = "arr"  -> <<[path |-> <<i, 0>>, vis |-> Final(v)], [path |-> <<i, 1>>, vis |-> Final(v)]>>
+         [] f.kind = "arr7" -> [j \in 1..7 |-> [path |-> <<i, j - 1>>, vis |-> Final(v)]]
+         [] f.kind = "tri"  -> <<[path |-> <<i, 1, 0>>, vis |-> Final(v)], [path |-> <<i, 1, 1>>, vis |-> Final(v)], [path |-> <<i, 2, 0>>, vis |-> Final(v)]>>
          [] f.kind = "sli0" -> <<>>
          [] f.kind = "sli2" -> <<[path |-> <<i, 0>>, vis |-> Final(v)], [path |-> <<i, 1>>, vis |-> Final(v)]>>
          [] OTHER -> SubSeq2(<<i>>, f.sub, 1, v)
